@@ -316,7 +316,7 @@ static std::string lti_meas(Toks& t) {
 
 static LinearModel::LinearMatrixComponent readComp(Toks& t, long& n, long& m) {
     n = t.nat(); m = t.nat();
-    std::vector<std::size_t> idx; for (long i = 0; i < m; ++i) idx.push_back((std::size_t)t.nat());
+    std::vector<std::size_t> idx; for (long i = 0; i < m; ++i) idx.push_back((std::size_t)t.unat());
     return std::make_pair((std::size_t)n, idx);
 }
 
